@@ -111,7 +111,7 @@ JudgeDebRaw(rec) ==
 \* signature that covers that package verifies.
 JudgeLife(rec) ==
     LET ops == rec.in.ops
-        PkgOf(h) == rec.in.pkgs[ops[CHOOSE j \in 1..Len(ops) : ops[j].op \in {"load", "loadfile"} /\ ops[j].h = h].p]
+        PkgOf(h) == rec.in.pkgs[ops[CHOOSE j \in 1..Len(ops) : ops[j].op \in {"load", "loadfile", "loadlink"} /\ ops[j].h = h].p]
         \* does the package a handle was loaded from carry a signature by k1 over its three members, in order?
         Signed(pkg) == \E m \in 1..Len(pkg) : pkg[m].role = "sig" /\ Verifies(pkg[m], <<1, 2, 3>>, {"k1"}, {})
         ClosedBefore(i, h) == \E j \in 1..(i - 1) : ops[j].op \in {"close", "closer"} /\ ops[j].h = h
@@ -125,7 +125,7 @@ JudgeLife(rec) ==
                   \/ o.panic
                   \/ CASE ops[i].op = "dict"  -> FALSE
                        [] ops[i].op = "load" /\ ~Loads(i) -> o.ok          \* a dictionary beyond the limit in force is refused
-                       [] ops[i].op \in {"load", "loadfile"}  -> ~(o.ok /\ o.package = Name(h))
+                       [] ops[i].op \in {"load", "loadfile", "loadlink"}  -> ~(o.ok /\ o.package = Name(h))
                        [] ops[i].op \in {"closer", "replace"} -> FALSE
                        [] ops[i].op = "close" -> FALSE
                        [] ops[i].op = "data"  -> ~(o.ok /\ o.package = Name(h) /\ TarAgrees([tar |-> o.tar], PkgOf(h)[3].files))
